@@ -306,6 +306,19 @@ static std::string oom_call(const std::vector<std::string>& a) {
     if (f == "b32enc") SWEEP((base32_encode(A2)))
     if (f == "b36enc") SWEEP((base36_encode(A2)))
     if (f == "tohex") SWEEP((to_hex(s2, false)))
+    // ---- ONE HmacContext object: a complete cycle under another key, then init(key) hits an allocation failure, then a complete cycle under a
+    //      SHORTER key: that MAC must be HMAC(shorter key, msg) - nothing of the failed init may stay in the object
+    if (f == "hmacctx_reuse") {
+        TypeHash ty = th(a[2]); size_t ds = ty == TypeHash::SHA1 ? 20 : ty == TypeHash::SHA256 ? 32 : 64;
+        Bytes shortk(A2.begin(), A2.begin() + (A2.size() > 2 ? A2.size() / 2 : A2.size())); HmacContext* c = 0;
+        std::string ref_short = hx(get_hmac(shortk.data(), shortk.size(), A3.data(), A3.size(), ty)); std::string res; res.reserve(400);
+        long live_before = hw::g_live;        // after the harness's own objects exist
+        auto cycle = [&](const Bytes& key) { c->init(key.data(), key.size()); c->update(A3.data(), A3.size()); uint8_t o[64]; c->final(o, 64); return hx(o, ds); };
+        auto reset = [&]() { delete c; c = new HmacContext(ty); (void)cycle(B2); };
+        auto ok_state = [&](const std::string& st) { return st == ref_short; };
+        res = oom_sweep(reset, [&]() { OomResult r = guard_call([&]() { return cycle(A2); }); hw::g_watch = false; hw::g_fail_at = -1; r.state = cycle(shortk); return r; }, ok_state, false);
+        delete c; if (hw::g_live != live_before) res += " PROBLEM leak-after-destruction blocks=" + std::to_string(hw::g_live - live_before); return res;
+    }
     // ---- secure_buffer: after a failed operation the buffer holds its old contents, zeros of its old size, or is empty ----
     if (f.compare(0, 3, "sb_") == 0) {
         secure_buffer<uint8_t> other = sbuf(A3); std::string res; res.reserve(400); std::string olds = hx(A2), zeros = hx(Bytes(A2.size(), 0)), news = hx(A3);
